@@ -75,14 +75,15 @@ class V1MPM(MessageProcessingModel[V1EncodingResult, TV1SecModel]):
             self.security_model = create_sm(security_model_id)
 
         decoded, _ = decode(whole_msg, enforce_type=Sequence)
-        _, _, pdu = decoded
+
+        msg = self.security_model.process_incoming_message(decoded, credentials)
 
         # Because PDUs are lazy, we need to trigger the readout of the PDU
         # value. Otherwise, any error-response is hidden, causing cryptic
-        # errors.
-        pdu.value
+        # errors. This must not happen before the message has been accepted
+        # (version & community): an error-response is no exception to that.
+        msg.value
 
-        msg = self.security_model.process_incoming_message(decoded, credentials)
         return msg
 
 
